@@ -1141,7 +1141,23 @@ func pairKind(in PairIn, fields []string) string {
 	return k
 }
 
+// Domain of network ids.  A chain's NID is an int32 (genesis "nid" is a common.HexInt32,
+// strconv.ParseInt(s, 0, 32); otherwise the 24-bit CID), and a nil vote carries it as
+// codec(int) in BlockID, read back by voteBase.NID() into an int32: ids >= 2^31 cannot be
+// configured and are not representable in a nil vote (decoding overflows, Verify rejects the
+// vote).  Generated nil votes therefore use ids in [0, 2^31); votes with a part set id and
+// proposals carry a uint32 and are generated over the full uint32 range.
+const maxNilVoteNID = 0x7fffffff
+
+func inDomain(s MsgSpec) MsgSpec {
+	if s.Kind == "vote" && s.NilMode == 1 && s.NID > maxNilVoteNID {
+		s.NID &= maxNilVoteNID
+	}
+	return s
+}
+
 func emitPair(c *collector, in PairIn, kind string) {
+	in.A, in.B = inDomain(in.A), inDomain(in.B)
 	coq, msg := oraclePair(in)
 	c.Emit(hxlib.Case{Kind: kind, Coq: coq, Input: map[string]interface{}{"t": "pair", "v": in},
 		Nontrivial: true, OracleErr: msg})
@@ -1306,7 +1322,7 @@ func gen(ctx *hxlib.Ctx) {
 		case 0:
 			a.NID, b.NID = n1, n2
 			if n1 == n2 {
-				b.NID = n1 + 1
+				b.NID = n1 ^ 2 // other, non-zero, still below 2^31
 			}
 		case 1:
 			a.NID, b.NID = 0, n2
@@ -1353,6 +1369,9 @@ func gen(ctx *hxlib.Ctx) {
 	}
 	for i := 0; i < c.N(50); i++ {
 		in := genLog(r, voteCost, propCost, i)
+		for k := range in.Msgs {
+			in.Msgs[k] = inDomain(in.Msgs[k])
+		}
 		coq, msg := oracleLog(in)
 		kind := "log-retained"
 		if in.Cap < len(in.Msgs)*voteCost {
@@ -1363,6 +1382,7 @@ func gen(ctx *hxlib.Ctx) {
 	// 4. reports
 	for i := 0; i < c.N(90); i++ {
 		in := genReport(r, i)
+		in.A, in.B = inDomain(in.A), inDomain(in.B)
 		coq, msg := oracleReport(in)
 		kind := "report-" + in.Tag
 		if !expConflict(in.A, in.B) {
@@ -1373,6 +1393,9 @@ func gen(ctx *hxlib.Ctx) {
 	// 5. report manager
 	for i := 0; i < c.N(30); i++ {
 		in := genAdd(r, i)
+		for k := range in.Adds {
+			in.Adds[k].A, in.Adds[k].B = inDomain(in.Adds[k].A), inDomain(in.Adds[k].B)
+		}
 		coq, msg := oracleAdd(in)
 		c.Emit(hxlib.Case{Kind: "manager-add", Coq: coq, Input: map[string]interface{}{"t": "add", "v": in}, Nontrivial: true, OracleErr: msg})
 	}
@@ -1633,7 +1656,7 @@ func main() {
 	log.GlobalLogger().SetLevel(log.ErrorLevel)
 	hxlib.Main(hxlib.Spec{
 		ID: "C06",
-		Rule: "corpus pairs first; vote/proposal messages really signed by harness-held wallets; for each base message every subset of at most two of {kind, signer, height, round, vote type, network id, block id, part-set id, timestamp | POL round} is varied (network id varied among 0 / n / m != n; nil votes carry the id in BlockID), each pair observed directly and after Bytes()->DecodeDoubleSignData; a network-id matrix on otherwise conflicting pairs; pairs with 3-5 fields varied; message-log histories over a few signer/height/round slots with 1-4 contents per slot, both vote types, foreign network ids and capacities from 'nothing fits' to 'never evicts' with a scripted random source; DSR reports with wrong tag / order / duplicate / count / context / revision / sender / future height / context history; report-manager Add sequences with repeats. Non-trivial = every case except matchNID calls with an unspecified id; distinct = distinct Coq case term",
+		Rule: "corpus pairs first; vote/proposal messages really signed by harness-held wallets; for each base message every subset of at most two of {kind, signer, height, round, vote type, network id, block id, part-set id, timestamp | POL round} is varied (network id varied among 0 / n / m != n over uint32; nil votes carry the id in BlockID as an int32, so their ids are generated in [0, 2^31) — the domain of a chain NID, which is a HexInt32), each pair observed directly and after Bytes()->DecodeDoubleSignData; a network-id matrix on otherwise conflicting pairs; pairs with 3-5 fields varied; message-log histories over a few signer/height/round slots with 1-4 contents per slot, both vote types, foreign network ids and capacities from 'nothing fits' to 'never evicts' with a scripted random source; DSR reports with wrong tag / order / duplicate / count / context / revision / sender / future height / context history; report-manager Add sequences with repeats. Non-trivial = every case except matchNID calls with an unspecified id; distinct = distinct Coq case term",
 		Preamble: "From Goloop Require Import lib.Bytes Model_DoubleSign.\nFrom GoloopRun Require Import Run_C06.",
 		Shard:    150,
 		Gen:      gen, Replay: replay,
